@@ -24,7 +24,33 @@ from spec import seqsem
 USES_THEORY = True
 
 
+def _fluent_exps(e):
+    out, stack = set(), [e]
+    while stack:
+        x = stack.pop()
+        if x.is_fluent_exp():
+            out.add(x)
+        stack.extend(x.args)
+    return out
+
+
 def signature(pr, plan):
+    # a fluent WITHOUT initial value read only inside a sub-expression that simplification removes (`false and q`, `0 * n`): the sequential
+    # simulator simplifies while grounding and never reads it, the time-triggered validator evaluates the expression as written and fails on it
+    try:
+        em = pr.environment.expression_manager
+        for a, ps in plan:
+            subs = dict(zip([em.ParameterExp(p_) for p_ in a.parameters], [em.ObjectExp(o) for o in ps]))
+            exprs = list(a.preconditions)
+            for e in a.effects:
+                exprs += [e.value, e.condition]
+            for x in exprs:
+                g = x.substitute(subs)
+                gone = _fluent_exps(g) - _fluent_exps(g.simplify())
+                if any(pr.initial_value(f) is None for f in gone if not f.args or all(arg.is_object_exp() for arg in f.args)):
+                    return "undefined-fluent-read-only-in-a-subexpression-that-simplifies-away"
+    except Exception:  # noqa
+        pass
     for a, ps in plan:
         for e in a.effects:
             t = e.fluent.fluent().type
